@@ -8,8 +8,9 @@ overrides `def on_x(self): [raise]; super().on_x(); [raise]` into the process-co
 inside transitions, and one injected fault — is decided by the model:
 
 * a configuration `FCfg` carries the configuration `LCfg` of the model with listeners, the **armed fault**
-  (`Arm`: hook, number of calls of that hook that still pass, raise before / after `super()`), the flag `fired`, and
-  the log `rep` of what requests issued by listeners returned (a listener is the requester then);
+  (`Arm`: hook, number of calls of that hook that still pass, raise before / after `super()`), the flag `fired`, the
+  counter `called` of `call_with_super_check` (which is not exception-safe: `hookF`), and the log `rep` of the requests issued
+  by listeners that raised (a listener is the requester then);
 * every function of `PM/Listener.lean` that contains a call of a user hook gets a twin `…F` returning
   `FCfg × Option Exc`: the configuration reached so far (Python does not roll back mutations) and the exception that
   is propagating, if any.  The twins follow the source statement by statement (`try / except / finally` of
